@@ -431,6 +431,11 @@ def shrink_ops(ctx, domain, ops_lines, still_fails, keep_prefix=0, max_rounds=20
 # Context, verdict, evidence
 # ---------------------------------------------------------------------------------------------
 
+SEARCH_FAMILY = {"C01", "C02", "C03", "C04", "C06", "C07", "C10", "C13", "C20"}
+SEARCH_MODEL_SITES = ["platform:crossPlatformTools", "platform:checkPlatformVariant-shape", "stopwords:func", "stopwords:literal",
+                      "stopwords:tokenizer-uses-nlp.StopWords", "bm25:defaultParams", "bm25:params-literal"]
+
+
 class Ctx:
     def __init__(self, pid, tier, seed, prop):
         self.pid, self.tier, self.seed, self.prop = pid, tier, seed, prop
@@ -474,6 +479,10 @@ class Ctx:
         self.facts = facts.get("facts", {})
         self.oblige("translator:run", "translator", ok, out)
         asserts = {a["site"]: a for a in facts.get("assertions", [])}
+        # the regenerated tables every run of the SearchUniversal model reads: when one of them is not recognised the model is
+        # stale, and the checks of the whole search family must name that site rather than a diffuse correspondence failure
+        if self.pid in SEARCH_FAMILY:
+            required_assertions = list(required_assertions) + [a for a in SEARCH_MODEL_SITES if a not in required_assertions]
         for site in required_assertions:
             a = asserts.get(site)
             if a is None:
